@@ -344,7 +344,8 @@ def tiff_predict(data, colors, bpc, columns):
             v = 0
             for x in d:
                 v = (v << bpc) | x
-            v <<= rb * 8 - nbits
+            # bits after the last sample of the row are not samples: kept as they are
+            v = (v << (rb * 8 - nbits)) | (int.from_bytes(row, "big") & ((1 << (rb * 8 - nbits)) - 1))
             out += v.to_bytes(rb, "big")
     return bytes(out)
 
